@@ -191,8 +191,12 @@ func hasBindingRule(p *Prog, r *Report, rule string) {
 						if dcal := dc.Call.StaticCallee(); dcal != nil && fnPkgPath(dcal) == "reflect" && dcal.Name() == "DeepEqual" {
 							l, rr := Path(dc.Call.Args[0]), Path(dc.Call.Args[1])
 							want := "param:" + fn.Params[2].Name()
-							el := "param:" + cl.Params[0].Name() + ".ClientFeature.Address()"
-							good = (l == el && rr == want) || (rr == el && l == want)
+							// the predicate's parameter stands for an element of the searched slice
+							isEl := func(s string) bool {
+								return s == "param:"+cl.Params[0].Name()+".ClientFeature.Address()" ||
+									(strings.Contains(s, "BindingsOnFeature()") && strings.HasSuffix(s, "[].ClientFeature.Address()"))
+							}
+							good = (isEl(l) && rr == want) || (isEl(rr) && l == want)
 						}
 					}
 					if !good {
